@@ -47,3 +47,7 @@ Definition c17_wide_padding_str (s : bytes) : bool :=
     '/'-prefix of every path: slashes * length operations for one path. *)
 Definition PATH_COST_BOUND : N := 100000000.
 Definition c17_quadratic_path (slashes len : N) : bool := PATH_COST_BOUND <? slashes * len.
+
+(** uri-colon-segment: "id" or a user "address" without a valid scheme whose first path segment
+    contains ':' (":", "1:x", "%3A:") makes uriparse's URI::try_from panic inside the library. *)
+Definition c17_colon_uri (s : bytes) : bool := uri_try_from_panics s.
